@@ -225,6 +225,20 @@ class TermInterp:
             v = self.expr(st.value)
             for t in st.targets:
                 self.assign(t, v, st)
+            # `x = table[i, j]` taken as a place to write to later (`x[...] = value`): remember which cell the name views
+            ca = self.__dict__.setdefault("cell_alias", {})
+            for t in st.targets:
+                if isinstance(t, ast.Name):
+                    ca.pop(t.id, None)
+                    if isinstance(st.value, ast.Subscript):
+                        try:
+                            base = self.expr(st.value.value)
+                            if isinstance(base, Table):
+                                idx = self.index(st.value.slice, base)
+                                if len(idx) == len(base.shape):
+                                    ca[t.id] = (base, idx)
+                        except AnalysisError:
+                            pass
             return
         if isinstance(st, ast.AugAssign):
             cur = self.expr(st.target)
@@ -238,6 +252,9 @@ class TermInterp:
             if isinstance(v, Terms):
                 self.updates += 1
             self.assign(st.target, new, st)
+            if isinstance(st.target, ast.Name) and st.target.id in self.__dict__.get("cell_alias", {}) and isinstance(new, Terms):
+                tab, idx = self.cell_alias[st.target.id]
+                tab.set(idx, new)  # an in-place update of a view writes into the table
             return
         if isinstance(st, ast.For):
             it = self.expr(st.iter)
@@ -254,6 +271,9 @@ class TermInterp:
             self.returns.append((st, self.expr(st.value)))
             return
         if isinstance(st, (ast.Raise, ast.Pass)):
+            return
+        if isinstance(st, ast.FunctionDef) and not st.decorator_list:
+            self.env[st.name] = LocalFunc(st)  # a local helper: interpreted in place with the enclosing locals visible
             return
         self.err(f"statement {type(st).__name__} not modelled", st)
 
@@ -304,6 +324,17 @@ class TermInterp:
             for tt, vv in zip(t.elts, vals):
                 self.assign(tt, vv, st)
             return
+        if isinstance(t, ast.Subscript) and isinstance(t.value, ast.Name) and t.value.id in self.__dict__.get("cell_alias", {}):
+            sl = t.slice
+            elts = sl.elts if isinstance(sl, ast.Tuple) else [sl]
+            if all((isinstance(z, ast.Constant) and z.value is Ellipsis) or (isinstance(z, ast.Slice) and z.lower is None and z.upper is None and z.step is None)
+                   for z in elts):
+                tab, idx = self.cell_alias[t.value.id]
+                if not isinstance(v, Terms):
+                    self.err("non-term value stored through a view of the table", st)
+                tab.set(idx, v)
+                self.env[t.value.id] = v
+                return
         if isinstance(t, ast.Subscript):
             base = self.expr(t.value)
             if isinstance(base, Table):
@@ -494,6 +525,35 @@ class TermInterp:
     def call(self, e):
         d = dotted(e.func)
         short = d.split(".")[-1] if d else None
+        if isinstance(e.func, ast.Name) and isinstance(self.env.get(e.func.id), LocalFunc):
+            lf = self.env[e.func.id]
+            a_ = lf.node.args
+            if a_.vararg or a_.kwarg or a_.kwonlyargs or a_.posonlyargs:
+                self.err("local helper with */** parameters", e)
+            names = [x.arg for x in a_.args]
+            vals = [self.expr(x) for x in e.args]
+            bound = dict(zip(names, vals))
+            for k in e.keywords:
+                bound[k.arg] = self.expr(k.value)
+            defaults = dict(zip(names[len(names) - len(a_.defaults):], a_.defaults))
+            for nm in names:
+                if nm not in bound:
+                    if nm not in defaults:
+                        self.err(f"local helper {lf.node.name} called without `{nm}`", e)
+                    bound[nm] = self.expr(defaults[nm])
+            saved_env, saved_ret = self.env, self.returns
+            self.env = dict(saved_env)
+            self.env.update(bound)
+            self.returns = []
+            try:
+                for s_ in lf.node.body:
+                    self.stmt(s_)
+                    if self.returns:
+                        break
+                rv = self.returns[-1][1] if self.returns else None
+            finally:
+                self.env, self.returns = saved_env, saved_ret
+            return rv
         r = self.call_handler(self, e, d)
         if r is not NotImplemented:
             return r
@@ -591,6 +651,11 @@ class TermInterp:
             ia, ib = int(t.axes[a][1:]), int(t.axes[b][1:])
             return t.swapped_cells(ia, ib)
         self.err(f"call `{d}` not modelled", e)
+
+
+class LocalFunc:
+    def __init__(self, node):
+        self.node = node
 
 
 class RowRef:
